@@ -170,7 +170,7 @@ var specs = map[string]*propSpec{
 			{"PostgreSQL / MySQL servers", "not-run", "no network; dialect-specific BulkInsert runs only where SQLite accepts the syntax"},
 			{"clock, context deadlines", "stub", "testing/synctest fake clock"},
 		},
-		FaultKinds: []string{"cb-error", "cb-error-canceled", "cb-error-deadline", "cb-error-wrapped", "cb-error-txdone", "cb-error-badconn", "cb-panic", "ctx-cancel", "deadline", "nested-deadline", "exec", "badconn", "begin", "commit-before", "commit-after", "rollback"},
+		FaultKinds: []string{"cb-error", "cb-error-lockwait", "cb-error-deadlock", "cb-error-canceled", "cb-error-deadline", "cb-error-wrapped", "cb-error-txdone", "cb-error-badconn", "cb-panic", "ctx-cancel", "deadline", "nested-deadline", "exec", "badconn", "begin", "commit-before", "commit-after", "rollback"},
 		Assumptions: []string{"no cooperative scheduling is involved: this is a sequential fault-sequence simulation inside a synctest bubble"},
 	},
 	"C15": {
@@ -211,7 +211,7 @@ var specs = map[string]*propSpec{
 	"C06": {
 		ID: "C06", Title: "declared authentication fails closed (stateful facet)",
 		TestPkg: "cmd/glyph", HarnessDir: "C06", HarnessExtra: []string{"glyphcommon"},
-		Weave:     glyphServerWeave,
+		Weave:     append(append([]weave.PkgConfig{}, glyphServerWeave...), weave.PkgConfig{Path: "./pkg/apikey", Touch: true, L2Files: []string{"*"}}),
 		QuickSecs: 45, ThoroughSecs: 600, Chunk: 100,
 		Rule: "each run draws a credential configuration (JWT secret / API keys set, unset or blank; or BasicAuthMiddlewareWithConfig driven directly with small lockout parameters), an execution mode, 1-6 clients and for each a timed sequence of requests (canonical valid credential, none, wrong, empty, prefix only, other scheme, valid credential in the wrong header, credential of the other auth type, forged forwarding headers) with gaps placed around lockout expiry, reset window and cleanup ticks and up to 3 requests in flight; secrets may consist of separators only or contain a comma; one run in 25 first sends bad requests from 10050 distinct clients (table pressure); a run is non-trivial if at least two tasks were runnable at once and a preemption happened, or a fault (request aligned with a cleanup tick, clock jump) fired; distinct = distinct fingerprints (schedule hash combined with workload and fault tapes) among the non-trivial runs",
 		Components: []component{
@@ -220,7 +220,7 @@ var specs = map[string]*propSpec{
 			{"interpreter / VM executing the marker route body", "real-woven", "L0"},
 			{"TCP sockets / net/http server loop", "stub", "handler invoked directly with httptest request and recorder"},
 			{"clock, tickers", "stub", "testing/synctest fake clock moved only by the simulator"},
-			{"pkg/apikey validator", "not-run", "not wired into `+ auth(apikey)` routes by cmd/glyph"},
+			{"pkg/apikey Validator and Middleware", "real-woven", "driven directly (cmd/glyph does not wire it into `+ auth(apikey)` routes): keys issued and revoked at runtime under concurrent requests, statement-level yields + race probes"},
 		},
 		FaultKinds: []string{"request-at-cleanup-tick", "clock-jump"},
 	},
